@@ -498,26 +498,21 @@ func ruleTVer(c *Ctx) {
 	} else {
 		c.Undecided("T-ver", "validator", token.NoPos, "validA58 not found")
 	}
-	// encoders: bb[0] is 0 (make) or the constant 111 under !mainnet
+	// encoders: the first payload byte under mainnet = true / false
 	for _, name := range []string{"NewAddressFromPublicKeyHash", "NewAddressFromPublicKey"} {
 		fn := c.P.Func("bscript", "", name)
 		if fn == nil {
 			c.Undecided("T-ver", "encoder/"+name, token.NoPos, "not found")
 			continue
 		}
-		vals := map[int64]bool{0: true}
-		for _, b := range fn.Blocks {
-			for _, ins := range b.Instrs {
-				if st, ok := ins.(*ssa.Store); ok {
-					if ia, ok := st.Addr.(*ssa.IndexAddr); ok {
-						if idx, ok := constInt(ia.Index); ok && idx.Sign() == 0 {
-							if v, ok := constInt(st.Val); ok {
-								vals[v.Int64()] = true
-							}
-						}
-					}
-				}
+		vals := map[int64]bool{}
+		for _, mainnet := range []bool{true, false} {
+			l, _ := addressPayload(c, fn, mainnet, 0)
+			v := int64(-1)
+			if len(l.Items) > 0 && l.Items[0].K == "const" && len(l.Items[0].S) == 2 {
+				fmt.Sscanf(l.Items[0].S, "%x", &v)
 			}
+			vals[v] = true
 		}
 		c.Check(setStr(vals) == want, "T-ver", "encoder/"+name, fn.Pos(), "encoder writes version bytes "+setStr(vals), "encoder writes version bytes "+setStr(vals)+", expected "+want)
 	}
